@@ -821,6 +821,13 @@ def correspond(ctx):
                             replay={'case': short(k), 'bytes': o['bytes'], 'observed': io, 'expected': ['c', w],
                                     'python': k.get('python')}))
                         break
+        if got_bytes and expect != 'raise':
+            nanw = [w for w in (o.get('truthk') or []) if (w & 0x7f800000) == 0x7f800000 and (w & 0x007fffff)]
+            nonwire = [u[0] for u in (o.get('truth') or []) if any(i[0] == -9 for i in u[2])]
+            if nanw or nonwire:
+                c.failures.append(Failure('correspondence', 'definition %r was emitted with %s' % (
+                    k['name'][:30], 'a NaN constant' if nanw else 'a non-wire input on %s' % nonwire[0]),
+                    found_input=True, theorem='invalid_rejected', replay={'case': short(k), 'bytes': o['bytes']}))
         for msg in o.get('cache') or []:
             c.failures.append(Failure('correspondence', 'as_bytes() caching / aliasing, definition %r: %s' % (k['name'][:30], msg),
                                       found_input=True, replay={'case': short(k), 'observed': msg}))
@@ -919,10 +926,11 @@ def correspond(ctx):
     c.count('distinct-unary-operators-read-back', len([1 for a_, _ in opseen if a_ == 'UnaryOpUGen']))
     c.count('distinct-binary-operators-read-back', len([1 for a_, _ in opseen if a_ == 'BinaryOpUGen']))
     nbridge = bridge_correspond(ctx, c)
+    nsweep = badsweep_correspond(ctx, c)
     nsyn = synthetic_correspond(ctx, c)
     nhash = hashseed_correspond(ctx, c, cases, outs)
 
-    c.evaluations = len(cases) + nbridge + nsyn + nhash
+    c.evaluations = len(cases) + nbridge + nsyn + nhash + nsweep
     c.rule = ('real SynthDef builds of generated graph programs (catalogue of %d unit classes + arithmetic, controls, variants); '
               'model parser/wf_def/writer/read_desc evaluated by vm_compute on the real bytes; non-trivial = bytes were '
               'emitted for a definition with at least two units' % len(CAT))
@@ -1178,6 +1186,31 @@ BRIDGE_STAGE = {1: 'the compiler model and the library disagree on whether the p
                 3: 'graph_ok fails on the compiler model\'s output (an input is not a collected constant / an output of a strictly earlier unit, or a field is out of range)',
                 4: 'wf_def fails on to_sdef of the compiler model\'s output',
                 5: 'write_def (to_sdef (compile p)) differs from the bytes the real SynthDef emits'}
+
+
+def badsweep_correspond(ctx, c):
+    """NaN / str / None in every numeric argument position of every constructor of every installed unit
+    class: must raise; a violation is a definition that WAS emitted and contains NaN or a non-wire input."""
+    res = ctx.impl('c02_badsweep', {'kinds': ['nan', 'str', 'none'], 'shard': 0, 'nshards': 1}, timeout=900)
+    for k_, v in res['stats'].items():
+        c.count('sweep:' + k_, v)
+    seen = set()
+    for b in sorted(res['bad'], key=lambda x: len(x['bytes'])):
+        if b['checker'] in seen:
+            continue
+        seen.add(b['checker'])
+        why = oracle.check_bytes(bytes.fromhex(b['bytes']))
+        c.failures.append(Failure(
+            'correspondence',
+            'invalid input accepted: %s with %s=%s builds and as_bytes() emits %d bytes: %s (input check: %s); independent reader: %s' % (
+                b['cls'] + '.' + b['meth'], b['arg'], {'nan': 'NaN', 'str': "'abc'", 'none': 'None'}[b['kind']],
+                len(b['bytes']) // 2, b['what'], b['checker'], why or 'parses (the NaN is a constant of the definition)'),
+            signature='C02:unvalidated-input:' + b['checker'], found_input=True, theorem='invalid_rejected',
+            replay={'python': b['python'], 'bytes': b['bytes'], 'observed': b['what'],
+                    'expected': 'an exception (ValueError: ... has bad input) and no bytes'}))
+    if res['stats'].get('baseline-built', 0) < 300:
+        c.failures.append(Failure('correspondence', 'invalid-input sweep degenerated: only %s constructors could be called' % res['stats'].get('baseline-built')))
+    return res['stats'].get('substitutions', 0)
 
 
 def hashseed_correspond(ctx, c, cases, outs):
